@@ -461,7 +461,7 @@ func (t *taintRun) moduleFuncValues() {
 						if len(g.Blocks) > 0 {
 							for _, call := range flow.Calls(g) {
 								if cal := flow.StaticCallee(call.Common()); cal != nil {
-									key := types.TypeString(x.Type(), nil)
+									key := sigKey(x.Type())
 									t.fnValues[key] = append(t.fnValues[key], cal)
 								}
 							}
@@ -469,7 +469,7 @@ func (t *taintRun) moduleFuncValues() {
 						continue
 					}
 					if g != nil {
-						key := types.TypeString(x.Type(), nil)
+						key := sigKey(x.Type())
 						t.fnValues[key] = append(t.fnValues[key], g)
 					}
 				}
@@ -592,7 +592,7 @@ func (t *taintRun) analyse(f *ssa.Function, params map[int]bool, depth int, via 
 					targets = append(targets, cal)
 				} else if !cc.IsInvoke() {
 					if _, isB := cc.Value.(*ssa.Builtin); !isB {
-						targets = append(targets, t.fnValues[types.TypeString(cc.Value.Type(), nil)]...)
+						targets = append(targets, t.fnValues[sigKey(cc.Value.Type())]...)
 					}
 				}
 				for _, cal := range targets {
@@ -994,4 +994,33 @@ func impliesIndexBelowLen(bo *ssa.BinOp, side bool, idx ssa.Value) (bool, string
 		return false, "no upper bound on idx"
 	}
 	return false, ""
+}
+
+// sigKey renders a function type without its parameter names (types.TypeString prints them, so renaming a parameter
+// of the target would change the key under which a function value is looked up).
+func sigKey(t types.Type) string {
+	sig, ok := t.Underlying().(*types.Signature)
+	if !ok {
+		return types.TypeString(t, nil)
+	}
+	var b strings.Builder
+	b.WriteString("func(")
+	for i := 0; i < sig.Params().Len(); i++ {
+		if i > 0 {
+			b.WriteString(",")
+		}
+		b.WriteString(types.TypeString(sig.Params().At(i).Type(), nil))
+	}
+	if sig.Variadic() {
+		b.WriteString("...")
+	}
+	b.WriteString(")(")
+	for i := 0; i < sig.Results().Len(); i++ {
+		if i > 0 {
+			b.WriteString(",")
+		}
+		b.WriteString(types.TypeString(sig.Results().At(i).Type(), nil))
+	}
+	b.WriteString(")")
+	return b.String()
 }
